@@ -47,6 +47,13 @@ CHECKS["C10"] = (True, MC, "symbolic execution of the real Scope.FindFunction / 
     "(all 1-parameter pairs/triples, 2-parameter pairs) are the replay channel and a concrete gate.",
     "Trusts z3, the proxy model, and vlib/spec_types.py (written from the statement). 1-3 candidates x 0-2 parameters; optional parameters outside.", "DESIGN.md 5 (C10)")
 
+CHECKS["C09"] = (True, MC, "symbolic execution of the real ResolveBinaryExpressionType and cast insertion over symbolic vector sizes / matrix shapes (symx + z3) against a typing table",
+    "Bounded symbolic check: for each of the 1053 (operator, operand kinds, component types) combinations the real typing function and the real "
+    "AddImplicitCasts visitor run on real type objects whose sizes are symbolic (1..4); z3 decides per path that accept/reject, result type, operand types and the "
+    "inserted casts equal the table transcribed from the statement (vlib/spec_types.py), for all sizes. All 13 x 14 x 14 spellable programs through "
+    "Compiler().Compile (accept/reject, static type of the returned value) are the replay channel and a concrete gate.",
+    "Trusts z3, the proxy model (repr of a symbolic size forks over its values), the table O3. Matrix comparison is undefined by the statement and not checked.", "DESIGN.md 5 (C09)")
+
 NOT_YET = "check not built yet in this round (see DESIGN.md status); nothing is claimed"
 NA = {
     "C18": "quantifies over hash seeds, processes and compilation histories: none of these is a value flowing through the code, so there is no assertion over symbolic variables for a solver to decide (DESIGN.md section 6)",
